@@ -1,5 +1,6 @@
 import RdsProofs.Reach
 import RdsProofs.WordedProofs
+import RdsProofs.AuditFrames
 /-!
 # Property C01 — basic tuning fields always equal the last error-free reception
 
@@ -14,6 +15,9 @@ Quantification: every table configuration `tb`, every history `ops` from initial
 -- THEOREM: RDS.C01_never_unknown
 -- THEOREM: RDS.C01_received_nonneg
 -- THEOREM: RDS.C01_normal_mode_shows_last
+-- THEOREM: RDS.C01_never_unknown_step
+-- THEOREM: RDS.C01_never_unknown_getter
+-- THEOREM: RDS.C01_never_unknown_getter_suffix
 namespace RDS
 
 /-- C01 for every history and every next call -/
